@@ -12,9 +12,9 @@ from props.common import *
 from vfw.schema import T
 
 BOUNDS = ("containers SEQUENCE and SET {id INTEGER, blob ANY DEFINED BY id}, blob untagged / [3] IMPLICIT / [3] EXPLICIT, and SET OF ANY / SEQUENCE OF ANY blobs (0..2 "
-          "elements); default map {1: INTEGER, 2: OCTET STRING, 3: SEQUENCE{x INTEGER, y BOOLEAN DEFAULT FALSE}, 4: SEQUENCE OF INTEGER}; governing value g in {0, mapped key, 5, 6} "
+          "elements); default map {1: INTEGER, 2: OCTET STRING, 3: SEQUENCE{x INTEGER, y BOOLEAN DEFAULT FALSE}, 4: SEQUENCE OF INTEGER}; governing value g in {0, mapped key, 5, 6, 2} "
           "(mapped, unmapped, mapped only by the caller's override); inner values symbolic (integers |n| <= 300, octets <= 2, 0..2 elements); codecs BER definite, BER indefinite, CER, DER; "
-          "decodeOpenTypes on/off; caller map overriding {5: INTEGER} present/absent")
+          "decodeOpenTypes on/off; caller map {5: INTEGER, 2: INTEGER} (adding a key and redefining a key of the default map) present/absent")
 OUTSIDE = "OID-governed maps (the governing value is hashed either way); maps to CHOICE; nested open types"
 
 I_T = T("INT")
@@ -63,17 +63,27 @@ def _inner_av(which, n, o0, o1, f0, k):
     return [n, 7][:k]
 
 
+OVERRIDE = {5: 1, 2: 1}  # the caller's map: 5 -> INTEGER (not in the default map), 2 -> INTEGER (the default map says OCTET STRING)
+
+
+def _resolved_which(g, override):
+    if override and g in OVERRIDE:
+        return OVERRIDE[g]
+    if g in INNER:
+        return g
+    return None
+
+
 def opentype_rt(container, tagging, vector, codec, gsel, which, n, o0, o1, f0, k, nelem, resolve, override):
-    # governing value: 0 = unmapped (0), 1 = the key mapped to the inner value's type, 2 = 5 (mapped only by the caller's override), 3 = 6 (unmapped)
-    g = (0, which, 5, 6)[gsel]
+    # governing value: 0 = unmapped (0), 1 = the key mapped to the inner value's type, 2 = 5 (mapped only by the caller's override), 3 = 6 (unmapped),
+    # 4 = 2 (mapped by the default map AND redefined by the caller's override)
+    g = (0, which, 5, 6, 2)[gsel]
     spec = _schema(container, tagging, vector)
     enc, dec, eopts = CODECS[codec]
-    # the inner value's type: the mapped one when g is mapped, otherwise any of the four (the field is opaque then)
-    if g in INNER:
-        if which != g:
-            raise Skip()
-    if override and g == 5 and which != 1:
-        raise Skip()  # the caller's map says INTEGER for 5: only an INTEGER inner value is well-typed there
+    # the inner value's type: the one the applicable map says when g is mapped, otherwise any of the four (the field is opaque then)
+    rw = _resolved_which(g, override)
+    if rw is not None and which != rw:
+        raise Skip()
     if container == 1 and tagging == 0 and which == 1:
         raise Skip()  # an untagged ANY holding an INTEGER next to `id INTEGER` in a SET is ambiguous ASN.1 (members must have distinct tags)
     it = INNER[which]
@@ -91,10 +101,8 @@ def opentype_rt(container, tagging, vector, codec, gsel, which, n, o0, o1, f0, k
     dopts = {}
     if resolve:
         dopts["decodeOpenTypes"] = True
-    omap = None
     if override:
-        omap = {5: univ.Integer()}
-        dopts["openTypes"] = omap
+        dopts["openTypes"] = dict((key, mk_type(INNER[w_])) for key, w_ in OVERRIDE.items())
     w, rest = dec.decode(substrate(octets), asn1Spec=spec, **dopts)
     if len(rest) != 0:
         return "remainder left"
@@ -102,8 +110,8 @@ def opentype_rt(container, tagging, vector, codec, gsel, which, n, o0, o1, f0, k
         return "governing value changed"
     # `openTypes` given implies resolution as well (decoder: `if openTypes or decodeOpenTypes`)
     resolving = resolve or override
-    mapped = g in INNER or (override and g == 5)
-    resolved_t = INNER.get(g, I_T) if mapped else None
+    mapped = rw is not None
+    resolved_t = INNER[rw] if mapped else None
     # what the field must hold when it stays opaque: the complete encoding of the inner value in this codec
     inner_octets = enc.encode(build(it, iav), **eopts)
     blob = w["blob"]
@@ -114,6 +122,8 @@ def opentype_rt(container, tagging, vector, codec, gsel, which, n, o0, o1, f0, k
         if resolving and mapped:
             if isinstance(item, univ.Any):
                 return "open type not resolved although the governing value is mapped"
+            if item.__class__ is not mk_type(resolved_t).__class__ or item.tagSet != mk_type(resolved_t).tagSet:
+                return "open type resolved to another type than the applicable map says"
             if not same(resolved_t, absval(resolved_t, item), iav):
                 return "resolved inner value differs"
         else:
@@ -124,7 +134,7 @@ def opentype_rt(container, tagging, vector, codec, gsel, which, n, o0, o1, f0, k
     return None
 
 
-P = {"container": I(0, 1), "tagging": I(0, 2), "vector": I(0, 2), "codec": I(0, 3), "gsel": I(0, 3), "which": I(1, 4), "n": I(127, 128), "o0": BYTE, "o1": BYTE,
+P = {"container": I(0, 1), "tagging": I(0, 2), "vector": I(0, 2), "codec": I(0, 3), "gsel": I(0, 4), "which": I(1, 4), "n": I(127, 128), "o0": BYTE, "o1": BYTE,
      "f0": B, "k": I(0, 1), "nelem": I(0, 2), "resolve": B, "override": B}
 
 
